@@ -40,12 +40,16 @@ const workersMarker = "hypersdk/internal/workers."
 type c26Task struct {
 	Fail bool `json:"fail,omitempty"`
 	Spin int  `json:"spin,omitempty"`
+	G    int  `json:"g,omitempty"` // which of the job's submitter goroutines calls Go for this task
 }
 
 type c26Job struct {
 	Backlog int       `json:"backlog"`
 	Tasks   []c26Task `json:"tasks"`
 	Cb      bool      `json:"cb,omitempty"`
+	Subs    int       `json:"subs,omitempty"` // goroutines calling Go on this job (0 = 1), as chain.AuthBatch's batch workers do
+	Ops     []c26Op   `json:"ops,omitempty"`  // serial-gated mode: per-job schedule (go g | rel i | wait)
+	Drain   []int     `json:"drain,omitempty"`
 }
 
 type c26Op struct {
@@ -54,7 +58,7 @@ type c26Op struct {
 }
 
 type c26Case struct {
-	Mode     string   `json:"mode"` // gated | free | serial
+	Mode     string   `json:"mode"` // gated | free | serial | serialgated
 	Workers  int      `json:"workers"`
 	MaxJobs  int      `json:"max_jobs"`
 	Jobs     []c26Job `json:"jobs"`
@@ -108,12 +112,21 @@ func c26GenJobs(rt *rapid.T, free bool) []c26Job {
 		case 7:
 			backlog = nt / 2
 		}
-		jobs[j] = c26Job{Backlog: backlog, Tasks: tasks, Cb: rapid.IntRange(0, 2).Draw(rt, "cb") == 0}
+		subs := rapid.SampledFrom([]int{1, 1, 2, 3, 4}).Draw(rt, "subs")
+		if subs > 1 {
+			for i := range tasks {
+				tasks[i].G = rapid.IntRange(0, subs-1).Draw(rt, "g")
+			}
+		}
+		jobs[j] = c26Job{Backlog: backlog, Tasks: tasks, Cb: rapid.IntRange(0, 2).Draw(rt, "cb") == 0, Subs: subs}
 	}
 	return jobs
 }
 
 func c26Gen(rt *rapid.T) c26Case {
+	if rapid.IntRange(0, 3).Draw(rt, "serialgated") == 0 {
+		return c26GenSerialGated(rt)
+	}
 	c := c26Case{Mode: "gated"}
 	c.Jobs = c26GenJobs(rt, false)
 	c.Workers = rapid.SampledFrom([]int{1, 2, 2, 3, 4, 8}).Draw(rt, "workers")
@@ -150,8 +163,11 @@ func c26Gen(rt *rapid.T) c26Case {
 
 func c26GenFree(rt *rapid.T) c26Case {
 	c := c26Case{Mode: "free"}
-	if rapid.IntRange(0, 5).Draw(rt, "serial") == 0 {
+	switch rapid.IntRange(0, 6).Draw(rt, "serial") {
+	case 0:
 		c.Mode = "serial"
+	case 1:
+		return c26GenSerialGated(rt) // also under the race detector
 	}
 	c.Jobs = c26GenJobs(rt, c.Mode == "free")
 	c.Workers = rapid.SampledFrom([]int{1, 2, 2, 3, 4, 8}).Draw(rt, "workers")
@@ -170,7 +186,8 @@ type c26JobH struct {
 	job        workers.Job
 	made       atomic.Bool // NewJob returned a job
 	dead       atomic.Bool // NewJob reported shutdown: there is no job
-	cmds       chan func()
+	subs       []chan func() // command queues of the submitter goroutines
+	goWG       sync.WaitGroup // Go calls issued and not yet returned
 	goIssued   int
 	doneIssued bool
 	waitDone   atomic.Bool
@@ -266,7 +283,13 @@ func (h *c26Harness) newJobH(idx int) *c26JobH {
 		jh.gates[i] = make(chan struct{})
 		jh.errs[i] = fmt.Errorf("job %d task %d failed", idx, i)
 	}
-	jh.cmds = make(chan func(), n+4)
+	ns := spec.Subs
+	if ns < 1 {
+		ns = 1
+	}
+	for i := 0; i < ns; i++ {
+		jh.subs = append(jh.subs, make(chan func(), n+4))
+	}
 	return jh
 }
 
@@ -341,6 +364,9 @@ func c26Run(c *c26Case, st *vstat.Stats) error {
 	if c.Mode == "serial" {
 		return c26RunSerial(c, st)
 	}
+	if c.Mode == "serialgated" {
+		return c26RunSerialGated(c, st)
+	}
 	race0, _ := raceReports()
 	h := &c26Harness{c: c, never: make(chan struct{}), race0: race0}
 	h.jobs = make([]*c26JobH, len(c.Jobs))
@@ -410,12 +436,25 @@ func c26Run(c *c26Case, st *vstat.Stats) error {
 					jh.waitDone.Store(true)
 					h.log.progress.Add(1)
 				})
+				// Go from every submitter goroutine of the job, Done once all of them are through
+				ns := len(jh.subs)
+				for g := 0; g < ns; g++ {
+					g := g
+					jh.goWG.Add(1)
+					hgo(func() {
+						defer jh.goWG.Done()
+						for t := range jh.spec.Tasks {
+							if jh.spec.Tasks[t].G%ns != g {
+								continue
+							}
+							h.log.rec("go", jh.idx, t, "")
+							jh.job.Go(h.freeBody(jh, t))
+							h.log.rec("goret", jh.idx, t, "")
+						}
+					})
+				}
 				hgo(func() {
-					for t := range jh.spec.Tasks {
-						h.log.rec("go", jh.idx, t, "")
-						jh.job.Go(h.freeBody(jh, t))
-						h.log.rec("goret", jh.idx, t, "")
-					}
+					jh.goWG.Wait()
 					h.doneCall(jh)
 				})
 			}
@@ -484,12 +523,17 @@ func c26Run(c *c26Case, st *vstat.Stats) error {
 			return fail("Job.Workers() = %d, pool has %d workers", w, c.Workers)
 		}
 		h.log.rec("new", jh.idx, 0, "")
-		cmds := jh.cmds
-		hgo(func() {
-			for f := range cmds {
-				f()
-			}
-		})
+		for _, cmds := range jh.subs {
+			cmds := cmds
+			hgo(func() {
+				for f := range cmds {
+					f()
+				}
+			})
+		}
+		if len(jh.subs) > 1 && len(jh.spec.Tasks) > 1 {
+			labels["go-from-several-goroutines"] = true
+		}
 		h.startWaiter(jh)
 		return nil
 	}
@@ -548,15 +592,22 @@ func c26Run(c *c26Case, st *vstat.Stats) error {
 			}
 		}
 		body := h.gatedBody(jh, t)
-		jh.cmds <- func() {
+		jh.goWG.Add(1)
+		jh.subs[jh.spec.Tasks[t].G%len(jh.subs)] <- func() {
 			h.log.rec("go", jh.idx, t, "")
 			jh.job.Go(body)
 			h.log.rec("goret", jh.idx, t, "")
+			jh.goWG.Done()
 		}
 	}
+	// Done is called once every Go call issued so far has returned (AuthBatch.Done
+	// waits for its batch workers before calling job.Done)
 	issueDone := func(jh *c26JobH) {
 		jh.doneIssued = true
-		jh.cmds <- func() { h.doneCall(jh) }
+		hgo(func() {
+			jh.goWG.Wait()
+			h.doneCall(jh)
+		})
 	}
 	doRelease := func(p parkedRef) {
 		jh := h.jobs[p.j]
@@ -752,7 +803,9 @@ func c26Run(c *c26Case, st *vstat.Stats) error {
 	settle(&h.log.progress, nil)
 	for _, jh := range h.jobs {
 		if jh.live() {
-			close(jh.cmds)
+			for _, cmds := range jh.subs {
+				close(cmds)
+			}
 		}
 	}
 	return c26Finish(c, h, st, obs, labels, stopConfirmed)
@@ -1000,6 +1053,8 @@ func c26RenderOps(ops []c26Op) string {
 			fmt.Fprintf(&sb, "r%d", o.I)
 		case "stop":
 			sb.WriteByte('S')
+		case "wait":
+			sb.WriteByte('W')
 		}
 	}
 	return sb.String()
@@ -1097,7 +1152,7 @@ func c26RunSerial(c *c26Case, st *vstat.Stats) error {
 
 // ---------------------------------------------------------------- tests
 
-const c26Rule = "1-6 jobs of 0-30 tasks (failing tasks at generated positions, task backlog = / > / < number of tasks, optional completion callback) on a pool of 1-8 workers with job queue 1-100; gated mode: op list of NewJob / Go on an open job / Done / release parked task #i / Stop with gated task bodies, then a drain that submits and releases everything and calls Stop; free mode: spinning bodies under the race detector; serial pool: sequential jobs. Oracle on the recorded history. Non-trivial = a job in which a failing task executed is followed by another job; distinct by the whole case (jobs + op list)"
+const c26Rule = "1-6 jobs of 0-30 tasks (failing tasks at generated positions, task backlog = / > / < number of tasks, optional completion callback, Go called from 1-4 submitter goroutines per job, Done once all Go calls returned) on a pool of 1-8 workers with job queue 1-100; gated mode: op list of NewJob / Go on an open job / Done / release parked task #i / Stop with gated task bodies, then a drain that submits and releases everything and calls Stop; serial-gated mode (1 in 4 gated cases, 1 in 7 race-stage cases): SerialWorkers jobs of 1-8 tasks whose Go calls come from 2-4 goroutines concurrently, op list of go-by-submitter g / release parked body #i / Wait, gated bodies, so that which tasks are in flight when a failure is recorded and the order in which bodies return are generated; free mode: spinning bodies under the race detector; serial pool also with sequential jobs. Oracle on the recorded history. Non-trivial = a job in which a failing task executed is followed by another job, or (serial-gated) a failing task submitted from another goroutine while a succeeding task body is in flight; distinct by the whole case (jobs + op lists)"
 
 func c26Check(t *testing.T, gen func(*rapid.T) c26Case) {
 	st := vstat.New(t, "C26", c26Rule)
